@@ -282,6 +282,22 @@ def ev_kde(case):
                     continue
                 if not (np.all(psv == p[j]) and np.all(csv == c[j])):
                     fails.append(fail(f"scalar/{bwc}/{form}-differs-from-array", f"{scls} {mapname}: x={xv!r}: pdf {psv.tolist()} vs {p[j]!r}, cdf {csv.tolist()} vs {c[j]!r}", x=float(xv), **detail))
+        # --- integer-valued evaluation points (python int, integer arrays and lists) must give what the same floats give
+        lo_i, hi_i = int(np.floor(srt[0])) - 1, int(np.ceil(srt[-1])) + 1
+        if hi_i - lo_i <= 4000:
+            ints = np.unique(np.linspace(lo_i, hi_i, min(9, hi_i - lo_i + 1)).round().astype(np.int64))
+            with lib("pdf-float-of-ints"):
+                pf = np.asarray(k(ints.astype(float)), dtype=float)
+                cf = np.asarray(k.cdf(ints.astype(float)), dtype=float)
+            for form, obj in (("int-array", ints.copy()), ("int-list", [int(v) for v in ints]), ("python-int", int(ints[len(ints) // 2]))):
+                with lib(f"pdf-{form}"):
+                    pi_ = np.asarray(k(obj), dtype=float).ravel()
+                with lib(f"cdf-{form}"):
+                    ci_ = np.asarray(k.cdf(obj), dtype=float).ravel()
+                nev += 2
+                wp, wc = (pf, cf) if form != "python-int" else (pf[len(ints) // 2 : len(ints) // 2 + 1], cf[len(ints) // 2 : len(ints) // 2 + 1])
+                if pi_.shape != wp.shape or ci_.shape != wc.shape or not (np.array_equal(pi_, wp) and np.array_equal(ci_, wc)):
+                    fails.append(fail(f"scalar/{bwc}/{form}-differs-from-float-points", f"{scls} {mapname}: points {ints.tolist()}: pdf {pi_.tolist()} vs {wp.tolist()}, cdf {ci_.tolist()} vs {wc.tolist()}", **detail))
         # --- order / container of the sample
         # (the scripted sub-sample is drawn by position, so that mode is tied to the order by construction)
         if bwc != "cv-sub" and ((a_exp, b_mult) in ((0, 0.0), (-20, 1e6)) or n <= 5):
